@@ -159,7 +159,16 @@ template <typename T, size_t order>
 void interpCase(Ctx &c, Rng &g) {
   const bool dyadic = !ST<T>::exact;
   // abscissae: a window of a (possibly larger) grid
-  const size_t nx = (size_t)g.range(2, dyadic ? 10 : 9);
+  // now and then many nodes (exact: only for low orders, the harness solver
+  // is cubic in rationals; floating: up to 64 nodes)
+  size_t nx = (size_t)g.range(2, dyadic ? 10 : 9);
+  if (c.caseId % 32 == 31) {
+    if (dyadic)
+      nx = (size_t)g.range(24, 64);
+    else if (order <= 3)
+      nx = (size_t)g.range(12, 20);
+    c.count("abscissae:many");
+  }
   const size_t extraL = g.chance(1, 2) ? g.below(3) : 0;
   const size_t extraR = g.chance(1, 2) ? g.below(3) : 0;
   std::vector<R> pts = genGrid(g, dyadic, nx + extraL + extraR, nx + extraL + extraR);
@@ -205,7 +214,14 @@ void interpCase(Ctx &c, Rng &g) {
       desc += std::string("{") + (b.last ? "LAST" : "FIRST") + ",d" +
               std::to_string(b.deriv) + "," + model::rstr(b.value) + "}";
   const System sys = assemble(xs, ys, order, bcs);
-  if (!regular(sys)) {
+  // exact scalar: unique solvability by exact elimination; floating types:
+  // the condition-number gate below implies it
+  if constexpr (ST<T>::exact) {
+    if (!regular(sys)) {
+      c.count("singular-skipped");
+      return;
+    }
+  } else if (sys.M.size() != sys.n) {
     c.count("singular-skipped");
     return;
   }
@@ -223,7 +239,8 @@ void interpCase(Ctx &c, Rng &g) {
     const double smin = svd.singularValues()((long)sys.n - 1);
     const double cond = smin > 0 ? smax / smin : INFINITY;
     if (!(cond * (double)sys.n * ST<T>::eps() * 1024.0 <= 1.0)) {
-      c.count("ill-conditioned-skipped");
+      c.count(std::isfinite(cond) && cond < 1e300 ? "ill-conditioned-skipped"
+                                                  : "singular-skipped");
       return;
     }
     c.maxval("condition-number", cond);
